@@ -1,5 +1,5 @@
-import CedarVerif.Lemmas.TpeSound3
-/- C14 helpers: soundness of `interpret` on the fragment `Frag`, by induction. -/
+import CedarVerif.Lemmas.TpeArms
+/- C14 helpers: soundness of `interpret` on `Frag` (all constructors; side conditions on `&&` / `||`), by induction. -/
 namespace Cedar.Tpe
 open Cedar
 
@@ -166,46 +166,23 @@ theorem interpret_sound_frag (hC : Completes preq pes req es) {r : Residual} (hf
         | bool b => simp [hasAttrV, Residual.eval, Agree]
         | int i => simp [hasAttrV, Residual.eval, Agree]
         | string s => simp [hasAttrV, Residual.eval, Agree]
-  | @binary op a b ty hop _ _ iha ihb =>
-    rw [interpret, interpretKind]
+  | @binary op a b ty _ _ iha ihb =>
+    rw [interpret, interpretKind_binary]
     simp only [Residual.eval, RKind.eval]
-    have generic : ∀ A B : Residual, Agree (A.eval req es) (a.eval req es) → Agree (B.eval req es) (b.eval req es) →
-        Agree ((Residual.part (.binaryApp op A B) ty).eval req es)
-          (bindR (a.eval req es) (fun v1 => bindR (b.eval req es) (fun v2 => applyBinary es op v1 v2))) := by
-      intro A B hA hB
-      simp only [Residual.eval, RKind.eval]
-      exact bindR_congr2 (fun v1 v2 => applyBinary es op v1 v2) hA hB
-    have errR : ∀ y : Result Value, (∃ e', y = .error e') →
-        Agree (Except.error ErrClass.ext) (bindR (a.eval req es) (fun v1 => bindR y (fun v2 => applyBinary es op v1 v2))) := by
-      rintro y ⟨e', rfl⟩
-      cases a.eval req es <;> simp [bindR, Agree]
-    cases hA : interpret preq pes a with
-    | error t =>
-      rw [hA] at iha
-      obtain ⟨e', he'⟩ := agree_err_left (by simpa [Residual.eval] using iha)
-      simp [he', Residual.eval, bindR, Agree]
-    | concrete v1 t1 =>
-      rw [hA] at iha
-      cases hB : interpret preq pes b with
-      | error t =>
-        rw [hB] at ihb
-        simp only [Residual.eval]
-        exact errR _ (agree_err_left (by simpa [Residual.eval] using ihb))
-      | concrete v2 t2 =>
-        rw [hB] at ihb
-        have hx : a.eval req es = .ok v1 := agree_ok_left (by simpa [Residual.eval] using iha)
-        have hy : b.eval req es = .ok v2 := agree_ok_left (by simpa [Residual.eval] using ihb)
-        simp only [hx, hy, bindR, interpretBinary_storeFree (es := es) hop]
-        exact agree_ofResult ty req es _
-      | part k t => rw [hB] at ihb; exact generic _ _ iha ihb
-    | part k t =>
-      rw [hA] at iha
-      cases hB : interpret preq pes b with
-      | error t =>
-        rw [hB] at ihb
-        simp only [Residual.eval]
-        exact errR _ (agree_err_left (by simpa [Residual.eval] using ihb))
-      | concrete v2 t2 => rw [hB] at ihb; exact generic _ _ iha ihb
-      | part k2 t2 => rw [hB] at ihb; exact generic _ _ iha ihb
+    exact binary_arm hC ty op _ _ _ _ iha ihb
+  | @call fn args ty _ ih =>
+    rw [interpret, interpretKind_call]
+    simp only [Residual.eval, eval_call]
+    exact list_arm ty _ _ _ (callExt fn) _ (evalList_interp args ih) (fun vals => agree_ofResult ty req es _)
+      (fun rs => eval_call fn rs)
+  | @set xs ty _ ih =>
+    rw [interpret, interpretKind_set]
+    simp only [Residual.eval, eval_set]
+    exact list_arm ty _ _ _ (fun vs => .ok (.set (Value.mkSet vs))) _ (evalList_interp xs ih)
+      (fun vals => by simp [Residual.eval, Agree]) (fun rs => eval_set rs)
+  | @record kvs ty _ ih =>
+    rw [interpret, interpretKind_record]
+    simp only [Residual.eval, eval_record]
+    exact record_arm ty _ _ (evalKVs_interp kvs ih)
 
 end Cedar.Tpe
